@@ -1159,7 +1159,9 @@ class Pipeline:
                 previous[f] = m
                 f.mapspec = None
         validate_consistent_axes(self.mapspecs(ordered=False))
-        self._autogen_mapspec_axes(previous)
+        if self._autogen_mapspec_axes(previous):
+            # e.g., sibling outputs of one function that are consumed with conflicting axes
+            validate_consistent_axes(self.mapspecs(ordered=False))
 
     @functools.cached_property
     def unique_leaf_node(self) -> PipeFunc:
